@@ -419,7 +419,7 @@ pub fn generate(profile: &str, seed: u64, krate: &str) -> Program {
         (Ty::Array(Box::new(Ty::Int("u8")), 3), "[1u8, 2, 3]".into(), T::Seq(vec![T::Num("1".into()), T::Num("2".into()), T::Num("3".into())])),
         (Ty::BMap(Box::new(Ty::Int("u32")), Box::new(Ty::Int("u8"))), "{ let mut m = BTreeMap::new(); m.insert(1u32, 2u8); m.remove(&1u32); m }".into(), T::Map(vec![])),
     ];
-    let nvars = match profile { "bigdeque" => 1, "scalars" => 24, "witness" => witness.len(), _ => 14 };
+    let nvars = match profile { "bigdeque" => 2, "scalars" => 24, "witness" => witness.len(), _ => 14 };
     for i in 0..nvars {
         let ty = match profile {
             "witness" => witness[i].0.clone(),
@@ -435,10 +435,15 @@ pub fn generate(profile: &str, seed: u64, krate: &str) -> Program {
             _ => { let d = g.rng.range(1, 3) as u32; g.ty(d) }
         };
         g.pre.clear();
-        let (expr, truth) = if profile == "bigdeque" {
-            // the confirmed defect: capacity 16000 > CAP_GUARD, head 11990
+        let (expr, truth) = if profile == "bigdeque" && i == 0 {
+            // the defect repaired by 6655f7c: capacity 16000 > CAP_GUARD, head 11990
             ("{ let mut d = VecDeque::<u32>::with_capacity(16000); for i in 0..12000u32 { d.push_back(i); } for _ in 0..11990 { d.pop_front(); } d }".to_string(),
              T::Seq((11990..12000u32).map(|i| T::Num(i.to_string())).collect()))
+        } else if profile == "bigdeque" {
+            // capacity 16000, head 11990, 12000 elements (wrapped after 4010): the documented guard shows the first LEN_GUARD = 10000 of
+            // the logical sequence (4010 from the end of the buffer, 5990 from its start)
+            ("{ let mut d = VecDeque::<u32>::with_capacity(16000); for i in 0..12000u32 { d.push_back(i); } for _ in 0..11990 { d.pop_front(); } for i in 12000..23990u32 { d.push_back(i); } d }".to_string(),
+             T::Seq((11990..21990u32).map(|i| T::Num(i.to_string())).collect()))
         } else if profile == "witness" { (witness[i].1.clone(), witness[i].2.clone()) } else { g.val(&ty) };
         let name = format!("v{i}");
         lets.push(format!("    let {name}: {} = {expr};", g.src(&ty)));
